@@ -1335,7 +1335,8 @@ func (s *Set) IsSubset(other Iterator) (bool, error) {
 }
 
 func (s *Set) Intersection(other Iterator) (Value, error) {
-	intersect := new(Set)
+	// Collect the elements of other that are also in s...
+	common := new(Set)
 	var x Value
 	for other.Next(&x) {
 		found, err := s.Has(x)
@@ -1343,10 +1344,18 @@ func (s *Set) Intersection(other Iterator) (Value, error) {
 			return nil, err
 		}
 		if found {
-			err = intersect.Insert(x)
+			err = common.Insert(x)
 			if err != nil {
 				return nil, err
 			}
+		}
+	}
+	// ...and list them in the insertion order of s, the left operand,
+	// like every other derived collection.
+	intersect := new(Set)
+	for e := s.ht.head; e != nil; e = e.next {
+		if found, _ := common.Has(e.key); found {
+			intersect.Insert(e.key) // can't fail
 		}
 	}
 	return intersect, nil
